@@ -359,6 +359,18 @@ def run_case(case):
     if case.get('rounds') and t is not None:
         obs['rounds'] = []
         for rnd in case['rounds']:
+            if rnd.get('second_model'):
+                # a second, equally built and equally delegated model next to the first (same delegation strings)
+                t2, _ = build_topo_ctx(case)
+                arm2 = t2.as_arm()
+                annotate(arm2, case, set(snapshot(storage, arm2.graph_id)['nodes'].keys()))
+                o = partition_obs(arm2, rnd, 'direct', bystanders=(arm.graph_id,))
+                o['same_arm'] = False
+                o['second_model'] = True
+                o['mutation'] = 'building a second, equally delegated model'
+                obs['rounds'].append(o)
+                storage.del_graph(arm2.graph_id)
+                continue
             done = apply_mutation(t, ctx, arm, rnd)
             arm_r = arm if rnd.get('same_arm', True) else t.as_arm()
             present = set(snapshot(storage, arm_r.graph_id)['nodes'].keys())
@@ -370,13 +382,38 @@ def run_case(case):
     return obs
 
 
-def partition_obs(arm, case, via):
+def parsed_mismatch(arm, snap):
+    """the source as the API parses it (ARM.get_delegations per node and type) against the property strings:
+    list of disagreements on delegation ids / entry form / pool (empty = the parsed view is the stored one)"""
+    from fim.slivers.delegations import DelegationType, DelegationFormat
+    form = {DelegationFormat.SinglePool: 'S', DelegationFormat.PoolDefinition: 'D', DelegationFormat.PoolReference: 'R'}
+    bad = []
+    for nid in sorted(snap['nodes']):
+        for f, ty in (('ld', DelegationType.LABEL), ('cd', DelegationType.CAPACITY)):
+            want = snap['nodes'][nid][f]
+            want = None if want is None else {k: [e[0]] + ([e[1]] if e[0] in ('D', 'R') else []) for k, e in want.items()}
+            try:
+                ds = arm.get_delegations(node_id=nid, delegation_type=ty)
+                got = None if ds is None else {k: [form.get(d.get_format(), '?')] +
+                                               ([d.get_pool_name()] if d.get_format() != DelegationFormat.SinglePool else [])
+                                               for k, d in ds.delegations.items()}
+            except Exception as e:
+                got = {'<raised>': [type(e).__name__]}
+            if got != want:
+                bad.append('%s.%s: get_delegations reports %s, the property holds %s' % (nid, f, got, want))
+    return bad[:4]
+
+
+def partition_obs(arm, case, via, bystanders=()):
     """generate_adms + rewrite_delegations on the current state of the store; the partitions are removed from the
-    store afterwards (they are snapshotted first), so that rounds do not pile up"""
+    store afterwards (they are snapshotted first), so that rounds do not pile up.  The source is observed as
+    property strings AND through the API's parsed view, before, after generate_adms and after the re-keying."""
     from fim.graph.resources.networkx_adm import NetworkXADMFactory
     storage = arm.storage
     garm = arm.graph_id
     before = snapshot(storage, garm)
+    by_before = {g: snapshot(storage, g) for g in bystanders}
+    visible = lambda: [g for g in store_graph_ids(storage) if g not in bystanders]
     guids = {d: 'adm-guid-' + d for d in case.get('guids', [])}
     bad = case.get('bad_guid')
     if bad and bad[0] == 'own':            # the caller names the aggregate model's own graph id
@@ -384,14 +421,17 @@ def partition_obs(arm, case, via):
     elif bad and bad[0] == 'dup':          # the caller names one graph id for two delegation ids
         guids[bad[1]] = guids[bad[2]] = 'adm-guid-dup'
     ren = {garm: 'ARM'}
-    obs = {'garm': 'ARM', 'before': before, 'via': via, 'asked_guids': {d: ren.get(g, g) for d, g in guids.items()}}
+    obs = {'garm': 'ARM', 'before': before, 'via': via, 'asked_guids': {d: ren.get(g, g) for d, g in guids.items()},
+           'parsed': {'start': parsed_mismatch(arm, before)}}
     try:
         adms = arm.generate_adms(delegation_guids=guids or None)
     except Exception as e:
         obs['err'] = type(e).__name__
-        obs['store'] = sorted(ren.get(g, 'unexpected:' + str(g)) for g in store_graph_ids(storage))
-        obs['after'] = snapshot(storage, garm)
-        for g in store_graph_ids(storage):
+        obs['store'] = sorted(ren.get(g, 'unexpected:' + str(g)) for g in visible())
+        obs['after'] = obs['after_generate'] = snapshot(storage, garm)
+        obs['parsed']['end'] = parsed_mismatch(arm, before)
+        obs['bystanders_changed'] = [g for g in bystanders if snapshot(storage, g) != by_before[g]]
+        for g in visible():
             if g != garm:
                 storage.del_graph(g)
         return obs
@@ -403,8 +443,9 @@ def partition_obs(arm, case, via):
     for d in sorted(adms):
         gid = adms[d].graph_id
         obs['adms'][d] = {'gid': ren[gid], 'snap': strip_text(snapshot(storage, gid))}
-    obs['store'] = sorted(ren.get(g, 'unexpected:' + str(g)) for g in store_graph_ids(storage))
-    obs['after'] = snapshot(storage, garm)
+    obs['store'] = sorted(ren.get(g, 'unexpected:' + str(g)) for g in visible())
+    obs['after_generate'] = snapshot(storage, garm)
+    obs['parsed']['after_generate'] = parsed_mismatch(arm, before)
     obs['rw'] = {}
     for d in sorted(adms):
         adm = NetworkXADMFactory.create(adms[d])
@@ -425,7 +466,11 @@ def partition_obs(arm, case, via):
         except Exception as e:
             raised = type(e).__name__
         obs['rw_arm'] = {'key': 'real-arm', 'raised': raised, 'order': order, 'snap': strip_text(snapshot(storage, 'arm-clone'))}
-    for g in store_graph_ids(storage):
+    # the source once more, after the partitions were re-keyed: strings and the API's parsed view
+    obs['after'] = snapshot(storage, garm)
+    obs['parsed']['end'] = parsed_mismatch(arm, before)
+    obs['bystanders_changed'] = [g for g in bystanders if snapshot(storage, g) != by_before[g]]
+    for g in visible():
         if g != garm:
             storage.del_graph(g)
     return obs
@@ -555,8 +600,17 @@ def oracle_case(case, o):
     dids = all_dids(B)
     sup = [g for d, g in sorted(o['asked_guids'].items()) if d in dids]
     bad = 'ARM' in sup or len(set(sup)) != len(sup)
-    if o['after'] != B:
+    if o.get('after_generate', o['after']) != B:
         return 'source-untouched: the aggregate model was modified by generate_adms (delegation_guids %s)' % o['asked_guids'], None
+    if o['after'] != B:
+        return 'source-untouched: the aggregate model was modified by rewrite_delegations on one of its partitions', None
+    for when in ('start', 'after_generate', 'end'):
+        if o.get('parsed', {}).get(when):
+            return ('source-untouched: parsed view of the aggregate model (%s) differs from its properties: %s' % (
+                {'start': 'before partitioning', 'after_generate': 'after generate_adms',
+                 'end': 'after re-keying the partitions'}[when], o['parsed'][when][0])), None
+    if o.get('bystanders_changed'):
+        return 'source-untouched: another model in the store was modified', None
     if 'err' in o:
         if not bad:
             return 'generate_adms raised %s on a valid annotated model' % o['err'], None
@@ -650,12 +704,38 @@ class C13Stream(Stream):
     check_fn = 'check13'
     shard = 60
 
-    def observe(self, case):
+    def observe_here(self, case):
         try:
             return run_case(case)
         except Exception as e:      # the generator produced something the construction API refuses
             import traceback
             return {'build_error': type(e).__name__ + ': ' + str(e)[:200], 'tb': traceback.format_exc()[-600:]}
+
+    def observe(self, case):
+        """every case (a single partitioning or a whole history) runs in a forked child: whatever process-global
+        state the library keeps (class attributes, singletons) starts from the same clean image for every case, so a
+        failing case fails on its own and the replay is self-contained"""
+        r, w = os.pipe()
+        pid = os.fork()
+        if pid == 0:
+            code = 0
+            try:
+                os.close(r)
+                data = json.dumps(self.observe_here(case), default=repr).encode()
+                with os.fdopen(w, 'wb') as f:
+                    f.write(data)
+            except BaseException:
+                code = 1
+            finally:
+                os._exit(code)
+        os.close(w)
+        with os.fdopen(r, 'rb') as f:
+            data = f.read()
+        os.waitpid(pid, 0)
+        try:
+            return json.loads(data.decode())
+        except Exception:
+            return {'build_error': 'child process produced no observation'}
 
     def to_coq(self, case, o):
         if 'build_error' in o:
@@ -922,7 +1002,8 @@ class Hist(C13Stream):
 
     def histogram(self, cases, obs):
         flat_c, flat_o = [], []
-        extra = {'histories': 0, 'rounds_same_arm_object': 0, 'rounds_fresh_wrapper': 0, 'rounds_node_set_grew': 0,
+        extra = {'histories': 0, 'rounds_same_arm_object': 0, 'rounds_fresh_wrapper': 0, 'rounds_second_model': 0,
+                 'partitionings_after_a_rekeying_in_the_same_store': 0, 'rounds_node_set_grew': 0,
                  'rounds_node_set_shrank': 0, 'rounds_with_id_only_on_new_nodes': 0, 'api_refused_mutations': 0}
         for c, o in zip(cases, obs):
             if 'before' not in o:
@@ -932,7 +1013,12 @@ class Hist(C13Stream):
             for i, r in enumerate(rs):
                 flat_c.append(c if i == 0 else c['rounds'][i - 1])
                 flat_o.append(r)
+                if i and r.get('second_model'):
+                    extra['rounds_second_model'] += 1
+                    extra['partitionings_after_a_rekeying_in_the_same_store'] += 1
+                    continue
                 if i:
+                    extra['partitionings_after_a_rekeying_in_the_same_store'] += bool(rs[i - 1].get('rw'))
                     prev, cur = set(rs[i - 1]['before']['nodes']), set(r['before']['nodes'])
                     extra['rounds_same_arm_object' if r['same_arm'] else 'rounds_fresh_wrapper'] += 1
                     extra['rounds_node_set_grew'] += bool(cur - prev)
@@ -1039,6 +1125,9 @@ class Hist(C13Stream):
                     rnd['ann'] = gen_annotations(rng, {**new, **some_old}, k, 'direct')
                 nodes = after
                 case['rounds'].append(rnd)
+                if rng.random() < 0.3:
+                    case['rounds'].append({'second_model': True, 'guids': [], 'bad_guid': None,
+                                           'realid': rng.random() < 0.5, 'rw_arm': False})
             out.append(case)
         _reset()
         return out
@@ -1128,6 +1217,8 @@ def replay_one_hop():
     o = run_case(WITNESS_ONE_HOP)
     if 'adms' not in o:
         return True, 'witness could not be run: %s' % o.get('err')
+    if 'primary' not in o['adms']:
+        return False, 'witness produced partitions %s (reported by the streams)' % sorted(o['adms'])
     kept = sorted(o['adms']['primary']['snap']['nodes'])
     still = kept == ['a', 'b', 'l1']
     return still, {'kept_nodes': kept, 'expected_if_gap_present': ['a', 'b', 'l1'],
